@@ -252,7 +252,8 @@ def gen_class(rng, idx):
         params.append(p)
         if c['t'] in ('double', 'int') and c.get('min') is not None and rng.random() < 0.3:
             k = rng.choice(['min', 'max', 'limits'])
-            params.append({'name': f'{name}_{k}', 'dt': None, 'limit': k, 'base': name, 'needscfg': False,
+            params.append({'name': f'{name}_{k}', 'dt': None, 'gdt': c if k != 'limits' else None,
+                           'limit': k, 'base': name, 'needscfg': False,
                            'write': rng.random() < 0.4, 'read': False, 'readonly': False, 'default': None,
                            'pyvalue_default': None, 'value': None, 'export': True})
     modprops = []
@@ -396,7 +397,7 @@ def final_dt_guess(c, items):
 def gen_param_cfg(rng, p, force_value=False):
     """list of (key, pyvalue) for one parameter: mostly valid"""
     items = []
-    c = p['dt']
+    c = p['dt'] or p.get('gdt')          # for <base>_min/_max: the class datatype of the base (generator bookkeeping only)
     if c is not None:
         t = c['t']
         if t in ('double', 'int') and rng.random() < 0.4:
@@ -441,16 +442,26 @@ def gen_param_cfg(rng, p, force_value=False):
     return items
 
 
-ERR_KINDS = ['unknown_name', 'unknown_param_prop', 'bad_value', 'bad_param_prop', 'bad_mod_prop', 'missing_mandatory',
+ERR_KINDS = ['prop_extra_key', 'unknown_name', 'unknown_param_prop', 'bad_value', 'bad_param_prop', 'bad_mod_prop', 'missing_mandatory',
              'missing_needscfg', 'inverted', 'bad_default']
 
 
 def inject(rng, spec, cfg, kind):
     """mutate cfg (dict name -> ('bare', v) | ('dict', [(k, v)])) to contain one error of the kind; returns a tag or None"""
-    real = [p for p in spec['params'] if p['dt'] is not None]
+    real = [dict(p, dt=p['dt'] or p.get('gdt')) for p in spec['params'] if (p['dt'] or p.get('gdt')) is not None]
     if kind == 'unknown_name':
         k = rng.choice(['zz', 'pq', 'Value', 'targett'])
         cfg[k] = rng.choice([('bare', 1), ('dict', [('value', 2)]), ('dict', [('max', 2)])])
+        return kind
+    if kind == 'prop_extra_key':
+        names = [m['name'] for m in spec['modprops']] + ['group', 'visibility', 'pollinterval']
+        k = rng.choice(names)
+        v = {'mp': 3, 'op': 'abc', 'group': 'g', 'visibility': 'expert', 'pollinterval': 2.5}[k]
+        extra = rng.choice([('nosuch', 1), ('unit', 's'), ('visibility', 3), ('min', 0)])
+        items = [('value', v), extra]
+        if rng.random() < 0.5:
+            items.reverse()
+        cfg[k] = ('dict', items)
         return kind
     if kind == 'missing_mandatory':
         cands = [m['name'] for m in spec['modprops'] if m['mandatory']] + ['description']
@@ -579,10 +590,7 @@ def lean_cfg(cls, effective):
         if k == 'cls':
             continue
         if isinstance(v, dict):
-            if k in cls.propertyDict:
-                out.append([k, {'dict': {'v': canon(v['value'])} if 'value' in v else None}])
-            else:
-                out.append([k, {'acc': [[pk, canon(pv)] for pk, pv in v.items()]}])
+            out.append([k, {'acc': [[pk, canon(pv)] for pk, pv in v.items()]}])
         else:
             out.append([k, {'bare': canon(v)}])
     return out
@@ -641,8 +649,9 @@ RX = [
     (re.compile(r"^(\w+) needs a datatype"), lambda m: {'k': 'noDatatype', 'param': m.group(1)}),
     (re.compile(r"^'(\w+)' has no default value and was not given in config"), lambda m: {'k': 'needsCfg', 'param': m.group(1)}),
     (re.compile(r"^(.*) does not exist \(use one of"), lambda m: {'k': 'unknownNames', 'keys': m.group(1).split(', ')}),
+    (re.compile(r"^'(\w+)' has no property '(\w+)'"), lambda m: {'k': 'unknownProp', 'name': m.group(1), 'key': m.group(2)}),
     (re.compile(r"^ConfigError: (\w+) needs a value of type"), lambda m: {'k': 'mandatory', 'key': m.group(1)}),
-    (re.compile(r"^(\w+): ConfigError: min\w*=.* must be <= max"), lambda m: {'k': 'badDatatype', 'param': m.group(1)}),
+    (re.compile(r"^(\w+): .*min\w*=.* must be <= max"), lambda m: {'k': 'badDatatype', 'param': m.group(1)}),
 ]
 
 
@@ -970,8 +979,6 @@ def violation_sig(judge, obs, mo):
         return 'C10:half-applied:registered-and-reported' if obs['registered'] else 'C10:rejected-without-report'
     if not judge['rejected']:
         return 'C10:erroneous-config-accepted'
-    if not judge['rejectedLimit']:
-        return 'C10:limit-cfg-ignored'
     if not judge['applied']:
         bad = [p['name'] for p in obs['params'] if p['described'] is not None and p['reach'] != [p['described']]]
         bad += [p['name'] for p in obs['params'] if p['described'] is None and p['reach']]
@@ -1053,30 +1060,55 @@ def corpus_cases(ctx):
     return out
 
 
-def subprocess_exit_check(res):
-    """thorough tier: Server._processCfg really exits with status 1 on a bad configuration"""
+def subprocess_exit_check(ctx, res):
+    """thorough tier: the real `Server._processCfg` in a subprocess: exit status and stderr of a good configuration and
+    of one with two failing modules; the node-level monitor judges (starts iff nothing reported, all failing reported)"""
     import subprocess
     base = tempfile.mkdtemp(prefix='verif-c10-srv-')
     try:
-        for tag, extra, want in (('good', '', 0), ('bad', ', zz=1', 1)):
+        cases = {'good': ("Mod('m1', 'frappy.modules.Readable', 'x', value=Param(default=1))\n"
+                          "Mod('m2', 'frappy.modules.Readable', 'y', value=Param(default=2))\n", []),
+                 'bad': ("Mod('m1', 'frappy.modules.Readable', 'x', value=Param(default=1), zz=1)\n"
+                         "Mod('m2', 'frappy.modules.Readable', 'y', value=Param(default='abc'))\n"
+                         "Mod('m3', 'frappy.modules.Readable', 'z', value=Param(default=3))\n", ['m1', 'm2'])}
+        code = ("import sys\nfrom pathlib import Path\nfrom vlib.node import patch_version; patch_version()\n"
+                "from frappy.lib import generalConfig; generalConfig.testinit(piddir=Path(sys.argv[1]).parent)\n"
+                "from frappy.server import Server\nimport mlzlog\n"
+                "srv = Server('x', mlzlog.MLZLogger('x'), cfgfiles=[sys.argv[1]], interface='tcp://5000', testonly=True)\n"
+                "srv._processCfg()\nprint('REGISTERED', ' '.join(srv.secnode.modules))\n")
+        for tag, (mods, _) in cases.items():
             p = os.path.join(base, f'{tag}_cfg.py')
             with open(p, 'w') as f:
-                f.write("Node('eq', 'd', interface='tcp://5000')\n"
-                        f"Mod('m', 'frappy.modules.Readable', 'x', value=Param(default=1){extra})\n")
-            code = ("import sys, logging; from vlib.node import patch_version; patch_version();\n"
-                    "from frappy.lib import generalConfig; generalConfig.testinit()\n"
-                    "from frappy.server import Server\n"
-                    "import mlzlog\n"
-                    f"srv = Server('x', mlzlog.MLZLogger('x'), cfgfiles={p!r}, interface='tcp://5000', testonly=True)\n"
-                    "srv._processCfg()\n")
-            pr = subprocess.run([sys.executable, '-c', code], stdout=subprocess.PIPE, stderr=subprocess.PIPE, timeout=120,
+                f.write("Node('eq', 'd', interface='tcp://5000')\n" + mods)
+            pr = subprocess.run([sys.executable, '-c', code, p], stdout=subprocess.PIPE, stderr=subprocess.PIPE, timeout=120,
                                 env=dict(os.environ))
+            err = pr.stderr.decode(errors='replace')
+            out = pr.stdout.decode(errors='replace')
+            configured = re.findall(r"Mod\('(\w+)'", mods)
+            registered = []
+            for line in out.splitlines():
+                if line.startswith('REGISTERED'):
+                    registered = line.split()[1:]
+            reported = sorted(set(re.findall(r'error creating (?:module )?(\w+)', err)))
+            if pr.returncode != 0 and not reported:
+                raise RuntimeError(f'Server subprocess failed for another reason: {err[-400:]}')
+            if pr.returncode != 0:
+                registered = [m for m in configured if m not in reported]     # not observable after exit: not contradicted
+            obs = {'configured': configured, 'registered': registered, 'reported': reported, 'starts': pr.returncode == 0}
+            a = ctx.driver.batch([dict(obs, p='C10', k='judge_node')])[0]
+            res.evaluations += 1
+            res.traces += 1
             res.count(f'subprocess.{tag}.exit={pr.returncode}')
-            if pr.returncode != want:
-                res.notes.append(f'Server._processCfg subprocess ({tag} cfg): exit {pr.returncode}, expected {want}; '
-                                 f'stderr tail: {pr.stderr.decode(errors="replace")[-300:]}')
+            if not a.get('ok'):
+                res.violations.append({'sig': 'C10:processCfg-exit', 'what': f'Server._processCfg ({tag} cfg): exit {pr.returncode}, {obs}',
+                                       'case': {'kind': 'subprocess', 'tag': tag}})
     finally:
         shutil.rmtree(base, ignore_errors=True)
+
+
+def subprocess_errors():
+    import subprocess
+    return (subprocess.TimeoutExpired, OSError)
 
 
 def run(ctx):
@@ -1198,10 +1230,10 @@ def run(ctx):
     res.notes.append(f'observation O01 (not demanded by the statement): {O01} registered modules had a configured value outside '
                      f'the limits: it is cached as start value, write_<p> is called once and refuses it (RangeError logged), the '
                      f'driver function is not reached')
-    if ctx.tier == 'thorough' and not ctx.escalated:
+    if (ctx.tier == 'thorough' or os.environ.get('VERIF_C10_SUBPROCESS')) and not ctx.escalated:
         try:
-            subprocess_exit_check(res)
-        except Exception as e:
+            subprocess_exit_check(ctx, res)
+        except subprocess_errors() as e:
             res.notes.append(f'subprocess check not run: {e!r}')
     return res
 
@@ -1218,6 +1250,11 @@ def replay(ctx, rp):
         print('model  :', json.dumps(a[0])[:1500])
         print('judge  :', a[1])
         return 1 if violation_sig(a[1], r['obs'], r) else 0
+    if case['kind'] == 'subprocess':
+        r = Result()
+        subprocess_exit_check(ctx, r)
+        print(r.dist, r.violations)
+        return 1 if r.violations else 0
     out = run_case(case['case'])
     reqs = [dict(out['node'], p='C10', k='judge_node')]
     if out['merge'] is not None:
